@@ -62,6 +62,45 @@ Definition is_decimal (s : string) : bool :=
                   else false
   end.
 
+(* ---- integer attributes (StrToNum<int> / StrToNum<unsigned char> behind StringToVector): a token is
+   [+-]? digit+ (strtol base 10 must consume it completely, else "bad format"); its value must lie in
+   [lo, hi] (INT_MIN..INT_MAX, or 0..255 for bytes), else "number is too large"; the first offending
+   token decides; then the arity rule of ReadAttr. *)
+Fixpoint digits_value (s : string) (acc : Z) : option Z :=
+  match s with
+  | EmptyString => Some acc
+  | String c r => if is_digit c then digits_value r (acc * 10 + Z.of_nat (nat_of_ascii c - 48))%Z else None
+  end.
+Definition int_value (s : string) : option Z :=
+  match s with
+  | String "-" r => if is_empty r then None else option_map Z.opp (digits_value r 0)
+  | String "+" r => if is_empty r then None else digits_value r 0
+  | _ => if is_empty s then None else digits_value s 0
+  end.
+Inductive intres := IntOk (vals : list Z) | IntMany | IntFew | IntFormat | IntRange.
+Fixpoint scan_ints (lo hi : Z) (ts : list string) : intres :=
+  match ts with
+  | [] => IntOk []
+  | t :: r =>
+      match int_value t with
+      | None => IntFormat
+      | Some z => if ((lo <=? z) && (z <=? hi))%Z
+                  then match scan_ints lo hi r with IntOk l => IntOk (z :: l) | e => e end
+                  else IntRange
+      end
+  end.
+Definition read_ints (lo hi : Z) (len : nat) (exact : bool) (text : string) : intres :=
+  match scan_ints lo hi (split_ws text) with
+  | IntOk l => let n := length l in
+               if (n =? 0)%nat then IntOk []
+               else if exact && (n <? len)%nat then IntFew
+               else if (len <? n)%nat then IntMany
+               else IntOk l
+  | e => e
+  end.
+Definition int32_lo : Z := (-2147483648)%Z.
+Definition int32_hi : Z := 2147483647%Z.
+
 (* keyword maps: value = index of the key *)
 Fixpoint index_of (k : string) (keys : list string) (i : nat) : option nat :=
   match keys with
@@ -95,10 +134,20 @@ Fixpoint nlist_eqb (a : list nat) (b : list Z) : bool :=
   | x :: r, y :: s => (Z.of_nat x =? y)%Z && nlist_eqb r s
   | _, _ => false
   end.
+Fixpoint zl_eqb (a b : list Z) : bool :=
+  match a, b with [], [] => true | x :: r, y :: t => (x =? y)%Z && zl_eqb r t | _, _ => false end.
 Definition lex_case_ok (c : Z * Z * bool * string * list string * (Z * list Z)) : bool :=
   match c with
   | (op, len, exact, text, keys, (code, payload)) =>
-      if (op =? 0)%Z then
+      if ((op =? 3) || (op =? 4))%Z then
+        match read_ints (if (op =? 3)%Z then int32_lo else 0%Z) (if (op =? 3)%Z then int32_hi else 255%Z) (Z.to_nat len) exact text with
+        | IntOk l => (code =? 0)%Z && zl_eqb l payload
+        | IntMany => (code =? 1)%Z
+        | IntFew => (code =? 2)%Z
+        | IntFormat => (code =? 3)%Z
+        | IntRange => (code =? 4)%Z
+        end
+      else if (op =? 0)%Z then
         match read_num is_decimal (Z.to_nat len) exact text, payload with
         | NumOk n, [cnt] => (code =? 0)%Z && (Z.of_nat n =? cnt)%Z
         | NumMany, _ => (code =? 1)%Z
